@@ -37,7 +37,11 @@ func (g *genCfg) genAny(id string) *Case {
 	case x < 8:
 		return g.genCall("s2h", id)
 	case x < 15:
-		return g.genCall("h2s", id)
+		c := g.genCall("h2s", id)
+		if c.Via != "eval-qual" && g.rng.Intn(6) == 0 {
+			c.BareEval = true // Eval("F") and Symbols() after a statement evaluated without package clause
+		}
+		return c
 	case x < 17:
 		return g.genMethodCase(id)
 	case x < 18:
@@ -310,6 +314,10 @@ func (g *genCfg) genFor(cls, id string) *Case {
 				c.Forms[k] = "const"
 			}
 		}
+		return c
+	case "qualified-eval-after-bare-statement":
+		c := g.genCall("h2s", id)
+		c.BareEval, c.Via = true, "eval-qual"
 		return c
 	case "hostvar-nil-pointer":
 		c := &Case{ID: id, Dir: "var", Access: "use"}
